@@ -166,4 +166,120 @@ example :
       valSkip (fun k => k = 0 || k = 1 || k = 3) seed W 3 = 10 := by
   refine ⟨by decide +kernel, by decide +kernel, by decide +kernel⟩
 
+/-! ### fd/cs approximations chosen under relevance: no memory of earlier compute_totals calls -/
+
+theorem addMethods_mem_left (ms : List Nat) (ds : List Decl) (m : Nat) (h : m ∈ ms) :
+    m ∈ addMethods ms ds := by
+  induction ds generalizing ms with
+  | nil => simpa [addMethods] using h
+  | cons d ds ih =>
+    rw [addMethods]
+    apply ih
+    split
+    · exact h
+    · exact List.mem_append_left _ h
+
+theorem addMethods_mem_decl (ms : List Nat) (ds : List Decl) (d : Decl) (h : d ∈ ds) :
+    d.method ∈ addMethods ms ds := by
+  induction ds generalizing ms with
+  | nil => cases h
+  | cons e ds ih =>
+    rw [addMethods]
+    rcases List.mem_cons.mp h with rfl | h
+    · apply addMethods_mem_left
+      split
+      · rename_i hc; simpa using hc
+      · simp
+    · exact ih _ h
+
+/-- after the repair every declared approximated partial is a candidate, whatever is live -/
+theorem approxKeys_fixed (live : List Nat) (rel : Nat → Bool) (decls : List Decl) :
+    approxKeys (methodsOf true live decls) rel decls = decls.filter (fun d => rel d.wrt) := by
+  unfold approxKeys methodsOf
+  apply List.filter_congr
+  intro d hd
+  have := addMethods_mem_decl live decls d hd
+  simp [this]
+
+/-- **History independence.**  What a call gives to the scheme of `m` depends on the declared
+partials and on the *current* relevance only — not on the calls made before, nor on the state the
+history started from. -/
+theorem C24_approx_history_independent (decls : List Decl) (hist : List (Nat → Bool))
+    (live0 : List Nat) (rel : Nat → Bool) (m : Nat) :
+    approxQuery true decls (hist.foldl (approxStep true decls) live0) rel m =
+      ((lastOfEachWrt (decls.filter (fun d => rel d.wrt))).filter (fun d => d.method == m)).map
+        (·.wrt) := by
+  unfold approxQuery schemeWrts
+  rw [approxKeys_fixed]
+
+theorem lastOfEachWrt_covers (ds : List Decl) (d : Decl) (h : d ∈ ds) :
+    ∃ e ∈ lastOfEachWrt ds, e.wrt = d.wrt := by
+  induction ds generalizing d with
+  | nil => cases h
+  | cons a ds ih =>
+    rw [lastOfEachWrt]
+    rcases List.mem_cons.mp h with rfl | h
+    · split
+      · rename_i hany
+        obtain ⟨e, he, hw⟩ := List.any_eq_true.mp hany
+        obtain ⟨e', he', hw'⟩ := ih e he
+        exact ⟨e', he', by rw [hw']; simpa using hw⟩
+      · exact ⟨d, List.mem_cons_self, rfl⟩
+    · obtain ⟨e, he, hw⟩ := ih d h
+      split
+      · exact ⟨e, he, hw⟩
+      · exact ⟨e, List.mem_cons_of_mem _ he, hw⟩
+
+theorem lastOfEachWrt_sub (ds : List Decl) (d : Decl) (h : d ∈ lastOfEachWrt ds) : d ∈ ds := by
+  induction ds with
+  | nil => simp [lastOfEachWrt] at h
+  | cons a ds ih =>
+    rw [lastOfEachWrt] at h
+    split at h
+    · exact List.mem_cons_of_mem _ (ih h)
+    · rcases List.mem_cons.mp h with rfl | h
+      · exact List.mem_cons_self
+      · exact List.mem_cons_of_mem _ (ih h)
+
+/-- **Completeness after any history.**  Every declared approximated partial whose `wrt` is relevant
+for the current of/wrt is perturbed by some scheme (so its sub-jacobian is not left at zero). -/
+theorem C24_approx_complete (decls : List Decl) (hist : List (Nat → Bool)) (live0 : List Nat)
+    (rel : Nat → Bool) (d : Decl) (hd : d ∈ decls) (hr : rel d.wrt = true) :
+    ∃ m, d.wrt ∈ approxQuery true decls (hist.foldl (approxStep true decls) live0) rel m := by
+  have hmem : d ∈ decls.filter (fun d => rel d.wrt) := List.mem_filter.mpr ⟨hd, by simpa using hr⟩
+  obtain ⟨e, he, hw⟩ := lastOfEachWrt_covers _ d hmem
+  refine ⟨e.method, ?_⟩
+  rw [C24_approx_history_independent]
+  refine List.mem_map.mpr ⟨e, List.mem_filter.mpr ⟨he, by simp⟩, hw⟩
+
+/-- nothing irrelevant is approximated (either variant, any state) -/
+theorem C24_approx_sound (fixed : Bool) (decls : List Decl) (live : List Nat) (rel : Nat → Bool)
+    (m w : Nat) (h : w ∈ approxQuery fixed decls live rel m) : rel w = true := by
+  unfold approxQuery schemeWrts at h
+  obtain ⟨e, he, rfl⟩ := List.mem_map.mp h
+  have h1 := lastOfEachWrt_sub _ e (List.mem_filter.mp he).1
+  have h2 := (List.mem_filter.mp h1).2
+  simp at h2
+  exact h2.2
+
+/-- The pinned snapshot is *not* history independent: one call for which the only approximated
+partial is irrelevant, and the next call — for which it is relevant — approximates nothing. -/
+theorem C24_approx_history_old_counterexample :
+    let d : Decl := ⟨0, 0, 0⟩
+    (∃ m, d.wrt ∈ approxQuery false [d] [d.method] (fun _ => true) m) ∧
+    ∀ m, approxQuery false [d] ([fun _ => false].foldl (approxStep false [d]) [d.method])
+      (fun _ => true) m = [] := by
+  refine ⟨⟨0, by decide⟩, ?_⟩
+  intro m
+  simp [approxQuery, approxStep, methodsOf, schemeWrts, approxKeys, lastOfEachWrt]
+
+-- non-vacuity: two methods, a wrt shared by two keys, a history that empties a scheme
+example :
+    let decls : List Decl := [⟨0, 10, 1⟩, ⟨1, 10, 2⟩, ⟨1, 11, 1⟩]
+    let hist : List (Nat → Bool) := [fun _ => false, fun w => w == 11]
+    approxQuery true decls (hist.foldl (approxStep true decls) []) (fun _ => true) 1 = [11] ∧
+    approxQuery true decls (hist.foldl (approxStep true decls) []) (fun _ => true) 2 = [10] ∧
+    hist.foldl (approxStep true decls) [1, 2] = [1] := by
+  refine ⟨by decide, by decide, by decide⟩
+
 end OMV.C24
